@@ -17,8 +17,7 @@ impl InstructionGenerator {
         self.generate_stash_by_ref_args(&args);
         self.generate_stash_function_return_value(function_name.into(), pos);
         self.push(Instruction::PopStack, pos);
-        self.generate_un_stash_by_ref_args(&args);
-        self.generate_un_stash_function_return_value(pos);
+        self.generate_un_stash_function_return_value_and_by_ref_args(&args, pos);
     }
 
     pub fn generate_built_in_sub_call_instructions(
@@ -61,10 +60,8 @@ impl InstructionGenerator {
         self.generate_stash_function_return_value(qualified_name, pos);
         // switch to parent context
         self.push(Instruction::PopStack, pos);
-        // un-stash by-ref variables
-        self.generate_un_stash_by_ref_args(&args);
-        // un-stash function name
-        self.generate_un_stash_function_return_value(pos);
+        // un-stash function name and by-ref variables
+        self.generate_un_stash_function_return_value_and_by_ref_args(&args, pos);
     }
 
     pub fn generate_sub_call_instructions(&mut self, sub_call: SubCall, pos: Position) {
@@ -142,6 +139,28 @@ impl InstructionGenerator {
         self.push(Instruction::UnStashFunctionReturnValue, pos);
     }
 
+    /// Takes the function result out of its (single) slot before the by-ref
+    /// arguments are stored back, as storing into an argument like `A(F(1))`
+    /// calls a function again and would overwrite the slot.
+    fn generate_un_stash_function_return_value_and_by_ref_args(
+        &mut self,
+        args: &Expressions,
+        pos: Position,
+    ) {
+        if args
+            .iter()
+            .any(|arg| arg.element.is_by_ref() && contains_function_call(&arg.element))
+        {
+            self.generate_un_stash_function_return_value(pos);
+            self.push(Instruction::PushAToValueStack, pos);
+            self.generate_un_stash_by_ref_args(args);
+            self.push(Instruction::PopValueStackIntoA, pos);
+        } else {
+            self.generate_un_stash_by_ref_args(args);
+            self.generate_un_stash_function_return_value(pos);
+        }
+    }
+
     fn generate_fix_string_length(&mut self, arg: &Expression, pos: Position) {
         if let ExpressionType::FixedLengthString(l) = arg.expression_type() {
             self.push(Instruction::FixLength(l), pos);
@@ -163,5 +182,24 @@ impl InstructionGenerator {
     fn jump_to_subprogram(&mut self, scope_name: &ScopeName, pos: Position) {
         let label: BareName = Self::format_subprogram_label(scope_name);
         self.push(Instruction::Jump(AddressOrLabel::Unresolved(label)), pos);
+    }
+}
+
+/// Checks if evaluating the expression involves a function call
+/// (e.g. in the indices of an array element).
+fn contains_function_call(expr: &Expression) -> bool {
+    match expr {
+        Expression::FunctionCall(_, _) | Expression::BuiltInFunctionCall(_, _) => true,
+        Expression::ArrayElement(_, indices, _) => indices
+            .iter()
+            .any(|index| contains_function_call(&index.element)),
+        Expression::BinaryExpression(_, left, right, _) => {
+            contains_function_call(&left.element) || contains_function_call(&right.element)
+        }
+        Expression::UnaryExpression(_, child) | Expression::Parenthesis(child) => {
+            contains_function_call(&child.element)
+        }
+        Expression::Property(left, _, _) => contains_function_call(left),
+        _ => false,
     }
 }
